@@ -254,6 +254,17 @@ class Origin:
             spec.body = b"<Error>no</Error>"
             self._fired(f"http-{spec.status}")
             self.acts.append(f"{c.kind}:http{spec.status}")
+        elif act == 3 and ch.choose(7, "net.stall") == 6:
+            # the TCP connect to this target hangs; the response (if the client is still there) is then served normally
+            spec.connect_stall = [45.0, 35.0, 5.0][ch.choose(3, "net.stall.s")]
+            self._fired("net:connect-stall")
+            self.acts.append(f"{c.kind}:connect-stall")
+            if c.kind == "head":
+                self._serve_head(c, spec)
+            elif c.kind == "get":
+                self._serve_get(c, spec)
+            else:
+                self._serve_range(c, spec)
         elif act == 3:
             k = ch.choose(6, "net.exc")
             spec.pre_exc = [
